@@ -1701,7 +1701,7 @@ func ufsTree() (string, error) {
 	if ufsRoot != "" {
 		return ufsRoot, nil
 	}
-	root, err := os.MkdirTemp("/tmp", "verif-c12-")
+	root, err := os.MkdirTemp("", "verif-c12-")
 	if err != nil {
 		return "", err
 	}
